@@ -152,9 +152,12 @@ def probe_ops(ctx: Ctx, stream: str, i: int, ops, composite: bool = False) -> No
             if not square:
                 ctx.fail(stream, i, f'symmetric-not-square:{name}', 'tagged symmetric but in/out structures differ', {})
         inv_is_transpose = type(op).inverse is type(op).transpose
-        if inv_is_transpose and name != 'MoveAxisOperator':
-            # orthogonal: MᵀM = I and A.I acts as A.T
-            if not (square and np.allclose(m.T @ m, np.eye(m.shape[0]), atol=1e-5)):
+        if inv_is_transpose:
+            # orthogonal: MᵀM = I and A.I acts as A.T (a move-axis operator relabels between two DIFFERENT structures of
+            # the same size: its matrix is a permutation matrix, orthogonal without the structures being equal)
+            needs_square = type(op).__name__ != 'MoveAxisOperator'
+            if not ((square or not needs_square) and m.shape[0] == m.shape[1] and
+                    np.allclose(m.T @ m, np.eye(m.shape[0]), atol=1e-5)):
                 ctx.fail(stream, i, f'orthogonal-false:{name}', f'{name}: inverse = transpose but MᵀM != I', {})
             sti, mi = safe(lambda: gen.dense(op.I))
             if sti != 'ok' or not np.allclose(mi, m.T, atol=1e-5):
